@@ -933,8 +933,8 @@ func (c *rdCase) listStep(h int, hi hinfo) {
 					var k int
 					fmt.Sscan(c.info[i].elem, &k)
 					if k >= t {
-						c.info[i].alive = false
-						c.killThrough(i, 0, "")
+						// the removed element is a standalone message now: still readable through the retained handle
+						c.info[i].parent, c.info[i].elem, c.info[i].detached = -2, "", true
 					}
 				}
 			}
